@@ -29,7 +29,7 @@ Proof. exact json_array_shape. Qed.
 (* literals the model repeats from the source are the ones the translator extracts from the current source (gen/Tables.v) *)
 From VGen Require Import Tables.
 From VModel Require Import Multi.
-From VProofs Require Import TieProofs.
+From VProofs Require Import TieC08.
 Theorem c08_tie_multi_delimiter : delimiter = String.append (String.concat "" (repeat src_multi_delim_char src_multi_delim_count)) nl.
 Proof. exact tie_multi_delimiter. Qed.
 Theorem c08_tie_multi_json : multi_stdout true [(0%Z, "A"); (0%Z, "B")] = String.append src_multi_json_open (String.append "A" (String.append src_multi_json_sep (String.append "B" (String.append src_multi_json_close nl)))).
